@@ -191,3 +191,58 @@ func VerifC11_Cancel(h *zz.H) {
 	}
 	h.Assert(n <= 1, "C11: nothing is delivered twice")
 }
+
+// VerifC11_Burst: the same discipline at scale — a backlog of N distinct items (concrete, so the
+// scale costs no forks) is drained down to a symbolic remainder, some of the still-pending items
+// are inserted again (one of them twice), a new item arrives, and the rest is drained: order of
+// first pending insertion, exact duplicate counts, Len = number of distinct pending items - also
+// for thresholds, resizing or batching that only sets in once a backlog has grown and shrunk.
+func VerifC11_Burst(h *zz.H) {
+	q := NewQueue()
+	ctx := context.Background()
+	N := h.Param("N", 80)
+	var model []c11Pending
+	for i := 0; i < N; i++ {
+		fresh, err := q.Insert(int64(i))
+		h.Assert(err == nil && fresh, "C11: insertion into an open queue succeeds")
+		model = append(model, c11Pending{int64(i), 0})
+	}
+	// some of the items were updated while the backlog grew
+	for _, i := range []int{0, N / 2, N - 1} {
+		q.Insert(int64(i))
+		model[i].dups++
+	}
+	h.Assert(q.Len() == N, "C11: Len is the number of distinct pending items")
+	// drain to a remainder of r items (r symbolic: every remainder from 1 to R)
+	r := h.Range("remainder", 1, h.Param("R", 24))
+	for len(model) > r {
+		it, dups, err := q.Next(ctx)
+		h.Assert(err == nil && it.(int64) == model[0].item && dups == model[0].dups, "C11: items are delivered in the order of their first pending insertion with their duplicate counts")
+		model = model[1:]
+	}
+	h.Assert(q.Len() == r, "C11: Len is the number of distinct pending items")
+	// a still-pending item is updated again (twice), and a new one arrives
+	j := h.Range("reinsert", 0, r-1)
+	for k := 0; k < 2; k++ {
+		fresh, err := q.Insert(model[j].item)
+		h.Assert(err == nil && !fresh, "C11: an item inserted again while still pending is not duplicated")
+		model[j].dups++
+	}
+	fresh, err := q.Insert(int64(N))
+	h.Assert(err == nil && fresh, "C11: Insert reports whether the item was newly queued")
+	model = append(model, c11Pending{int64(N), 0})
+	h.Assert(q.Len() == len(model), "C11: the backlog holds one entry per distinct pending item")
+	q.Close()
+	for len(model) > 0 {
+		it, dups, err := q.Next(ctx)
+		h.Assert(err == nil, "C11: pending items are delivered even after close")
+		if err != nil {
+			return
+		}
+		h.Assert(it.(int64) == model[0].item, "C11: items are delivered in the order of their first pending insertion")
+		h.Assert(dups == model[0].dups, "C11: an item is delivered once with the number of extra insertions")
+		model = model[1:]
+	}
+	_, _, err = q.Next(ctx)
+	h.Assert(IsClosedQueue(err), "C11: a closed empty queue reports closed")
+}
